@@ -280,6 +280,42 @@ def grid_cases(ctx, mode, years):
                                           "day_of_week": dow}}
 
 
+def edge_cases(mode, years):
+    """only the values beside each year's own limits, over many years
+    (every year type, year 0 and its neighbours, both ends of the range)"""
+    for y in years:
+        for mth, d in ((2, 28), (2, 29), (2, 30), (2, 31), (4, 30), (4, 31),
+                       (12, 31), (12, 32), (1, 0), (0, 1), (13, 1)):
+            legal = 1 <= mth <= 12 and 1 <= d <= R.month_len(mode, y, mth)
+            yield {"op": "ctor", "mode": mode, "what": "cal",
+                   "kw": {"year": y, "month_of_year": mth,
+                          "day_of_month": d}, "legal": legal, "near": True}
+        for doy in (0, 1, 360, 361, 365, 366, 367):
+            yield {"op": "ctor", "mode": mode, "what": "ord",
+                   "kw": {"year": y, "day_of_year": doy},
+                   "legal": 1 <= doy <= R.year_len(mode, y), "near": True}
+        for w in (0, 1, 51, 52, 53, 54):
+            for dow in (1, 4, 7):
+                legal = 1 <= w <= R.weeks_in_year(mode, y)
+                yield {"op": "ctor", "mode": mode, "what": "week",
+                       "kw": {"year": y, "week_of_year": w,
+                              "day_of_week": dow}, "legal": legal,
+                       "near": True}
+                if 0 <= y <= 9999 and w >= 52 and dow != 4:
+                    ext = (y + w + dow) % 2 == 0
+                    sep = "-" if ext else ""
+                    yield {"op": "text", "mode": mode, "what": "week",
+                           "text": "%04d%sW%02d%s%d" % (y, sep, w, sep, dow),
+                           "legal": legal,
+                           "fields": {"year": y, "week_of_year": w,
+                                      "day_of_week": dow}}
+
+
+EDGE_YEARS = list(range(-12, 13)) + list(range(1895, 1906)) + \
+    list(range(1996, 2033)) + list(range(2095, 2106)) + \
+    list(range(9988, 10000)) + [400, 800, 1600, 2400, -400, -2000, 1000]
+
+
 def truncated_cases(mode):
     """truncated points: a field given without the fields above it is
     bounded by the mode's largest month / leap year / 53 weeks"""
@@ -508,7 +544,7 @@ def estimate_work(text):
 
 def run_case(ctx, repo, case):
     mode = case["mode"]
-    repo.set_mode(mode)
+    repo.set_mode(mode, case)
     P = repo.parsers
     try:
         op = case["op"]
@@ -688,6 +724,14 @@ def workload(ctx, repo):
             ctx.case = case
             if i % 4001 == 0:
                 ctx.sample(case)
+            run_case(ctx, repo, case)
+    for mode in R.MODES:
+        for case in edge_cases(mode, EDGE_YEARS):
+            i += 1
+            if not ctx.mine(i):
+                continue
+            ctx.case = case
+            ctx.ev("cases.edge")
             run_case(ctx, repo, case)
     for mode in R.MODES:
         for case in truncated_cases(mode):
